@@ -7,7 +7,7 @@ package hx
 // the case asks for limits.
 //
 //   input : <id> <hex source> [cpu=N] [mem=N] [flags=N] [args=v,v,..] [mode=t|b|bt] [chunk=name]
-//   output: <id> <status> T:<ev>;<ev>.. R:<v>,<v>.. E:<hexmsg> O:<hex stdout> X:<ctx status>,<used cpu>,<used mem>
+//   output: <id> <status> T:<ev>;<ev>.. R:<v>,<v>.. E:<hexmsg> O:<hex stdout> X:<ctx status>,<used cpu>,<used mem> A:<go heap bytes allocated, with stats=1>
 //   status: ok | compile_error | error | killed | gopanic
 
 import (
@@ -16,6 +16,7 @@ import (
 	"encoding/hex"
 	"fmt"
 	"math"
+	goruntime "runtime"
 	"strconv"
 	"strings"
 
@@ -118,6 +119,7 @@ type LuaCase struct {
 	Mode    string
 	Chunk   string
 	Limited bool
+	Stats   bool
 	// Setup, if not nil, is called on the fresh runtime before the chunk is loaded
 	Setup func(r *rt.Runtime)
 }
@@ -159,6 +161,8 @@ func ParseLuaCase(line string) (lc LuaCase, ok bool) {
 					lc.Args = append(lc.Args, ParseValue(a))
 				}
 			}
+		case "stats":
+			lc.Stats = v == "1"
 		case "mode":
 			lc.Mode = v
 		case "chunk":
@@ -175,6 +179,7 @@ type LuaResult struct {
 	Errmsg string
 	Out    string
 	Ctx    string
+	Alloc  uint64 // Go heap bytes allocated while loading+running the chunk (Stats only)
 }
 
 func HexOrDash(b []byte) string {
@@ -212,6 +217,15 @@ func RunLuaCase(lc LuaCase) (res LuaResult) {
 		res.Out = HexOrDash(stdout.Bytes())
 	}()
 	t := r.MainThread()
+	if lc.Stats {
+		var ms0 goruntime.MemStats
+		goruntime.ReadMemStats(&ms0)
+		defer func() {
+			var ms1 goruntime.MemStats
+			goruntime.ReadMemStats(&ms1)
+			res.Alloc = ms1.TotalAlloc - ms0.TotalAlloc
+		}()
+	}
 	clos, err := t.LoadFromSourceOrCode(lc.Chunk, lc.Src, lc.Mode, rt.TableValue(r.GlobalEnv()), false)
 	if err != nil {
 		res.Status = "compile_error"
@@ -265,7 +279,7 @@ func FormatLuaResult(id string, res LuaResult) string {
 	if len(res.Trace) > 0 {
 		tr = strings.Join(res.Trace, ";")
 	}
-	return fmt.Sprintf("%s %s T:%s R:%s E:%s O:%s X:%s", id, res.Status, tr, res.Ret, res.Errmsg, res.Out, res.Ctx)
+	return fmt.Sprintf("%s %s T:%s R:%s E:%s O:%s X:%s A:%d", id, res.Status, tr, res.Ret, res.Errmsg, res.Out, res.Ctx, res.Alloc)
 }
 
 // LuaEngine is the stdin/stdout loop of the "lua" engine.
